@@ -1313,8 +1313,15 @@ class Calculus:
         If reduce is False, it does a degree elevation and keeps the same degree
         """
         knotvector = ImmutableKnotVector(knotvector)
+        degree = knotvector.degree
         matrix = Calculus.difference_matrix(knotvector)
-        matrix = np.transpose(matrix)[1:]
+        # No point where u_{i+p} = u_i: the first, and one per knot where C jumps
+        rows = [
+            i
+            for i in range(knotvector.npts)
+            if knotvector[i + degree] != knotvector[i]
+        ]
+        matrix = np.transpose(matrix)[rows]
         return totuple(matrix)
 
     @staticmethod
